@@ -12,7 +12,11 @@ TABLE = {
     "C10": (["alias", "mixed"], 50, 800, 40, True),
     "C11": (["index", "tx"], 50, 800, 40, False),
     "C13": (["tx", "alias", "index"], 50, 800, 40, False),
-    "C18": (["elements", "graph"], 40, 600, 40, False),
+    "C18": (["elements", "search_elem"], 40, 600, 40, False),
+    "C14": (["search_trav"], 80, 1200, 30, False),
+    "C15": (["search_cond"], 80, 1200, 30, False),
+    "C16": (["search_slice"], 80, 1200, 30, False),
+    "C17": (["search_path"], 80, 1200, 30, False),
     "C05": (["maint", "maint_file", "maint_memory"], 30, 400, 40, False),
     "C06": (["variants"], 25, 300, 40, False),
     "C12": (["values"], 40, 500, 40, False),
